@@ -173,32 +173,35 @@ theorem tie_speed (nan : α) (sqrt : α → α) (pow : α → α → α) (hsq : 
           .ok ((Cinematics.speedAt sqrt (xyOf track) (tsOf track) k).getD nan)
         else .error .index := by
   have hlen : (xyOf track).length = track.length := by rw [xyOf_eq, List.length_map]
+  have hN : Py.len track = (track.length : Int) := rfl
   unfold Gen.Analytics.analytics_speed Cinematics.speedAt
-  simp only [hlen, Py.len]
+  simp only [hlen]
   by_cases h0 : k = 0
   · subst h0
     rw [ite_pos' (by simp only [decide_eq_true_eq]; rfl), if_pos rfl]
     by_cases h : 2 ≤ track.length
-    · rw [if_pos ⟨by omega, h⟩, getIdx_ok 1 rfl (by omega), getIdx_ok 0 rfl (by omega),
-        speedBetween_ok sqrt track 1 0 (by omega) (by omega)]
+    · rw [if_pos ⟨by omega, h⟩, getIdx_ok (l := track) (i := 1) 1 rfl (by omega),
+        getIdx_ok (l := track) (i := 0) 0 rfl (by omega), speedBetween_ok sqrt track 1 0 (by omega) (by omega)]
       simp only [bind_ok, dist_comp sqrt pow hsq, Gen.ObsTime.ObsTime_sub]
       exact quot_tie nan hbeq _ _
-    · rw [if_neg (by omega), getIdx_err 1 rfl (by omega)]; rfl
+    · rw [if_neg (by omega), getIdx_err (l := track) (i := 1) 1 rfl (by omega)]; rfl
   · rw [ite_neg' (by simp only [decide_eq_true_eq]; omega), if_neg h0]
     by_cases h1 : k = track.length - 1
     · have h2 : 2 ≤ track.length := by omega
       rw [ite_pos' (by simp only [decide_eq_true_eq]; omega), if_pos h1, if_pos ⟨by omega, h2⟩,
-        getIdx_ok (track.length - 1) (by omega) (by omega), getIdx_ok (track.length - 2) (by omega) (by omega),
+        getIdx_ok (l := track) (i := Py.len track - 1) (track.length - 1) (by omega) (by omega),
+        getIdx_ok (l := track) (i := Py.len track - 2) (track.length - 2) (by omega) (by omega),
         speedBetween_ok sqrt track _ _ (by omega) (by omega)]
       simp only [bind_ok, dist_comp sqrt pow hsq, Gen.ObsTime.ObsTime_sub]
       exact quot_tie nan hbeq _ _
     · rw [ite_neg' (by simp only [decide_eq_true_eq]; omega), if_neg h1]
       by_cases h : k + 1 < track.length
-      · rw [if_pos ⟨by omega, by omega⟩, getIdx_ok (k + 1) (by omega) h, getIdx_ok (k - 1) (by omega) (by omega),
+      · rw [if_pos ⟨by omega, by omega⟩, getIdx_ok (l := track) (i := (k : Int) + 1) (k + 1) (by omega) h,
+          getIdx_ok (l := track) (i := (k : Int) - 1) (k - 1) (by omega) (by omega),
           speedBetween_ok sqrt track _ _ h (by omega)]
         simp only [bind_ok, dist_comp sqrt pow hsq, Gen.ObsTime.ObsTime_sub]
         exact quot_tie nan hbeq _ _
-      · rw [if_neg (by omega), getIdx_err (k + 1) (by omega) (by omega)]; rfl
+      · rw [if_neg (by omega), getIdx_err (l := track) (i := (k : Int) + 1) (k + 1) (by omega) (by omega)]; rfl
 
 /-- where `speed` raises `IndexError` (index past the end, or fewer than two observations) the model says `none` -/
 theorem speedAt_out (sqrt : α → α) (track : List (α × α × α × α)) (k : Nat)
